@@ -90,6 +90,18 @@ def dispatch (fn : String) (args : List String) (impl : String) : Option Verdict
           | some why => (some false, why)
       some { model := renderResult r, spec := spec, reason := reason }
     | _, _, _ => some { model := "BADARGS" }
+  | "conn_tokio", [cfg, _timeout, events, peer, oracle] =>
+    -- the tokio runtime, observed through a real socket: everything the server sent, concatenated
+    match parseApp cfg, parseEvents events, peer.splitOn "|" with
+    | some app, some chunks, [ip, port] =>
+      let env : Env := ⟨strBytes ip, port.toNat?.getD 0, oracleFn (parseOracle oracle)⟩
+      let c : ConnCfg String String :=
+        { app := app, run := runHandler, decode := decodeStr, env := env, now := strBytes "D", timeout := false }
+      let r := serve readerSource readerIdle c ⟨[], chunks⟩
+      let m := s!"W[{hx r.written.flatten}]"
+      -- the model meets the spec on all inputs (serve_meets_spec), so any other byte stream violates C01
+      some { model := m, spec := some (impl == m), reason := "tokio-runtime-differs-from-the-specified-byte-stream" }
+    | _, _, _ => some { model := "BADARGS" }
   | _, _ => none
 
 end Humphrey.Driver.C01
